@@ -275,6 +275,82 @@ def exception_case(ctx, seed):
         ctx.case(('exception', seed, kind, tuple(calls)), nontrivial=True)
 
 
+def concurrent_fetches_under_scheduler(ctx):
+    """Two threads fetch two DIFFERENT recordings through one cassette object at the same time (two recorders replaying in parallel over a
+    shared file / in-memory cassette). Each recording holds objects that are referenced more than once. Explored with the deterministic
+    scheduler; preemption points: the cassette module and the serializer's decoder. Every fetch hands out exactly what was stored."""
+    import shutil
+    import tempfile
+    from vlib import sched as S
+    import jsonpickle.unpickler
+    from playback.tape_cassettes.file_based.file_based_tape_cassette import FileBasedTapeCassette
+    from playback.tape_cassettes.in_memory.in_memory_tape_cassette import InMemoryTapeCassette
+    import playback.tape_cassettes.file_based.file_based_tape_cassette as fmod
+    import playback.tape_cassettes.in_memory.in_memory_tape_cassette as mmod
+    from vlib.values import Obj
+    d = tempfile.mkdtemp(prefix='vp-c11-conc-')
+    try:
+        for kind in ('file', 'memory'):
+            cas = FileBasedTapeCassette(d) if kind == 'file' else InMemoryTapeCassette()
+            tg = [(fmod if kind == 'file' else mmod).__file__, jsonpickle.unpickler.__file__]
+            ids, models = [], []
+            for i in range(2):
+                order = Obj(number=i, lines=['line-%d' % i])
+                r = cas.create_new_recording('Cat')
+                r.set_data('input: load', {'value': order})
+                r.set_data('output: send #1.output', {'args': [order], 'kwargs': {}})          # the same object again: a reference in the stored form
+                r.add_metadata({'n': i})
+                models.append({'input: load': {'value': Obj(number=i, lines=['line-%d' % i])},
+                               'output: send #1.output': {'args': [Obj(number=i, lines=['line-%d' % i])], 'kwargs': {}}})
+                cas.save_recording(r)
+                ids.append(r.id)
+            holder = {}
+
+            def make(sched, cas=cas, ids=ids):
+                out = {}
+                holder['out'] = out
+
+                def fetcher(i):
+                    def fn():
+                        try:
+                            got = cas.get_recording(ids[i])
+                            out[i] = {k: got.get_data_direct(k) for k in got.get_all_keys()}
+                        except Exception as ex:
+                            out[i] = ex
+                    return fn
+
+                def main():
+                    ths = [sched.Thread(target=fetcher(i), name='fetcher%d' % i) for i in range(2)]
+                    for t in ths:
+                        t.start()
+                    for t in ths:
+                        t.join()
+                return main
+
+            def on_run(rec, desc, kind=kind, models=models):
+                ctx.case((kind, rec.trace), nontrivial=len(rec.points) > 0)
+                ctx.count('concurrent_fetch_schedules')
+                w = {'concurrent_fetches': True, 'cassette': kind, 'schedule': desc if isinstance(desc, tuple) else list(desc)}
+                if rec.aborted or rec.error is not None:
+                    if rec.aborted and 'budget' in rec.aborted:
+                        ctx.count('schedules_over_step_budget')
+                        return
+                    ctx.violation('concurrent fetches: %s' % (rec.aborted or repr(rec.error))[:100], w)
+                    return
+                for i, got in holder['out'].items():
+                    if isinstance(got, Exception):
+                        ctx.violation('fetching a recording raised %s while another thread fetched another recording through the same %s cassette' % (type(got).__name__, kind),
+                                      dict(w, fetcher=i))
+                        return
+                    if not teq(got, models[i]):
+                        ctx.violation('a recording fetched while another thread fetched another recording through the same %s cassette differs from what was stored' % kind,
+                                      dict(w, fetcher=i, got=repr(got)[:200]))
+                        return
+            S.explore_random(make, tg, ctx.budget(60, 3000), ctx.rng, on_run, step_budget=200000)
+    finally:
+        shutil.rmtree(d, ignore_errors=True)
+
+
 def async_live_reads(ctx):
     """A recording in progress on the asynchronous cassette is read back by the service (get_data / recording[key]) and the value it
     got is modified: later reads of the live recording and what is finally stored still show what was recorded."""
@@ -660,6 +736,7 @@ def run(ctx):
     if ctx.shard == 0:
         overlapping_fetches(ctx)
         async_live_reads(ctx)
+        concurrent_fetches_under_scheduler(ctx)
     if not ctx.quick and ctx.shard == 0:
         from vlib.repo_tests import run_under_monitors
         res, tail = run_under_monitors()
@@ -676,6 +753,8 @@ def run(ctx):
 
 
 def replay(ctx, w):
+    if w.get('concurrent_fetches'):
+        return concurrent_fetches_under_scheduler(ctx)
     if w.get('async_live_reads'):
         return async_live_reads(ctx)
     if w.get('overlapping_fetches'):
